@@ -144,6 +144,12 @@ h("c18_scanner_transmit", "dp_scan.rs", "dp::scan::verif", ["C18"], panic_props=
 h("c18_scanner_reply_or_timeout", "dp_scan.rs", "dp::scan::verif", ["C18"], panic_props=["C18", "C05"], timeout_s=600, functions=SCF,
   bounds="ANY scanner state with a request outstanding; any admissible reply (PDU <= 9 B) or a time-out", obligation="well-formed diagnostics reply => known, Found(ident, master) iff unknown else Requery; other replies => nothing; time-out => Lost iff known; no other bit changes")
 
+# ---- FDL active station ------------------------------------------------------------------------------
+AV = "fdl::active::verif"
+h("c12_gap_lemma", "fdl_active.rs", AV, ["C12"], panic_props=["C12", "C05"], timeout_s=600, functions=["FdlActiveStation::next_gap_poll", "TokenRing::next_station"],
+  bounds="ALL (TS, HSA) with TS < HSA <= 126, ALL ring views (any LAS => any NS 0..125 incl. NS=TS, TS-1, HSA-1, NS >= HSA), ALL last-polled addresses < HSA",
+  obligation="result is Waiting{0} or DoPoll{a}: a != TS, a < HSA, a strictly inside the cyclic interval (TS, NS), a == cyclic successor of the last polled address; the sweep ends only when the next address is outside the GAP")
+
 PROPERTIES = {
     "C09": {
         "claim": "Bounded: for every header (DA/SA 0..127, any SAP options, any function code) and every payload within the stated length/content bounds the real encoder's bytes equal an independent reference frame encoder, the reported lengths agree, and the real decoder returns the identical telegram consuming exactly the frame. Function codes: exhaustive over all bytes and all values.",
@@ -171,6 +177,12 @@ PROPERTIES = {
                         "'accepted reply' = a reply that changed observable state (bring-up state, event, reported diagnostics, input image)",
                         "several peripherals: per-peripheral relation plus C14's routing lemma (a callback touches only the addressed slot)"],
         "outside": ["histories are covered by induction over Inv_DP, not enumerated; triples of requests beyond the Offline case"],
+    },
+    "C12": {
+        "claim": "Bounded/one-step: the GAP address generator is correct for ALL (TS, NS, HSA, last polled address) - never TS itself, never at or beyond NS, below HSA, no address skipped (pure lemma, no bound); one poll per token visit, the waiting counter, the post-claim full scan, evaluation of status replies (ready master becomes NS and gets the next token) and the truthfulness of this station's own status replies are one-step lemmas over poll() from symbolic states.",
+        "assumptions": ["per-station obligations; 'every GAP address is polled within a bounded number of visits' follows from no-skip + the waiting counter (paper step)",
+                        "reply 'within the slot time' needs the poll-jitter assumption and is arithmetic on the 33-bit pause (not machine-checked)"],
+        "outside": ["ring-level timing of replies"],
     },
     "C14": {
         "claim": "Bounded, one-step inductive: for a DP master with 0, 2 (quick) or 3 (thorough) storage slots of symbolic occupancy (sparse arrays included), every slot an arbitrary peripheral under Inv_DP, and any master state, ONE real transmit_telegram terminates and serves exactly the first slot at/after the cycle index that has something to send (nobody passed over, nobody served twice), reports 'cycle completed' exactly when all remaining slots declined (then restarts at slot 0 and never reports it twice), reports every Offline transition as an event with the right handle (none lost or invented), sends the reference global-control broadcast exactly when due without touching the cycle; ONE real receive_reply touches only the addressed slot, advances the cycle by exactly one occupied slot and reports that peripheral's event; per-peripheral event life-cycle relation (Online / Configured / DataExchanged / Offline / errors vs. is_live()/is_running()) from the peripheral step harnesses. 'Exactly one turn per peripheral between two cycle-completed reports' follows by induction over the cycle index (paper step).",
